@@ -73,14 +73,21 @@ def _arr(comp):
     return A
 
 
-def _irregular(pts, vals, labels=None):
+def _irregular(pts, vals, labels=None, vorder=None):
+    """Irregular data.  `vorder`: the VALUES dictionary is filled in another key order than the ARGVALS dictionary
+    ("reversed" / "rotated"; same key sets — the constructor accepts this)."""
     from FDApy.representation.argvals import DenseArgvals, IrregularArgvals
     from FDApy.representation.functional_data import IrregularFunctionalData
     from FDApy.representation.values import IrregularValues
 
     labels = list(range(len(pts))) if labels is None else labels
     arg = IrregularArgvals({l: DenseArgvals({"input_dim_0": np.array(p, dtype=float)}) for l, p in zip(labels, pts)})
-    val = IrregularValues({l: np.array(v, dtype=float) for l, v in zip(labels, vals)})
+    pairs = list(zip(labels, vals))
+    if vorder == "reversed":
+        pairs = pairs[::-1]
+    elif vorder == "rotated":
+        pairs = pairs[1:] + pairs[:1]
+    val = IrregularValues({l: np.array(v, dtype=float) for l, v in pairs})
     return IrregularFunctionalData(arg, val)
 
 
@@ -228,10 +235,11 @@ def adversarial_divide():
 
 
 def _vals(fd):
-    """Values of a dense / irregular result as nested lists (irregular: by position)."""
+    """Values of a dense / irregular result as nested lists (irregular: BY LABEL, in increasing label order,
+    whatever the insertion order of the dictionary)."""
     v = fd.values
     if hasattr(v, "keys"):
-        return [np.asarray(v[k], dtype=float).tolist() for k in v]
+        return [np.asarray(v[k], dtype=float).tolist() for k in sorted(v)]
     return np.asarray(v, dtype=float).reshape(len(v), -1).tolist()
 
 
@@ -334,7 +342,7 @@ def _irr_comp(rng: Rng, N, enc=None, lp_only=False):
                          dict(method="LP", bw=rs(Fraction(1, 2))),
                          dict(method="LP", bw=rs(Fraction(1, 2))) if lp_only else dict(method="interpolation"),
                          dict(method="LP", bw=rs(Fraction(3, 4))) if lp_only else dict(method="PS", nseg=rng.randint(3, 6))])
-    return dict(type="irreg", enc=enc, obs=obs, smooth=smooth, ck=ck)
+    return dict(type="irreg", enc=enc, obs=obs, smooth=smooth, ck=ck, vorder=rng.choice([None, "reversed", "rotated"]))
 
 
 def _basis_comp(rng: Rng, N, two_d=False, uniform=None, named=True):
@@ -385,6 +393,13 @@ def gen_cases(rng: Rng, tier):
         X[-1] = [8 * x + 3 if x != X[0][j] else x for j, x in enumerate(X[-1])]  # an atypical last curve
         X2, _ = _curves(rng, N, m)
         yield dict(kind="dense1", type="dense1", t=[rs(x) for x in _grid(rng, m)], X=_S(X), ck=ck, int=False, layout="C", X2=_S(X2), sized=True, **opts)
+    # structured, in every run: irregular data whose VALUES dictionary is filled in another key order than the ARGVALS dictionary
+    for enc, vo in (("points", "reversed"), ("nan", "rotated"), ("points", "rotated")):
+        opts = _opts(rng)
+        opts["integ"] = "trapz"
+        comp = _irr_comp(rng, rng.randint(3, 5), enc=enc)
+        comp["vorder"] = vo
+        yield dict(kind="irreg", **comp, **opts, sub=False)
     kinds = ["dense1", "basis1", "irreg", "multi", "dense2", "dense1", "irreg", "basis1", "multi", "basis2"]
     for k in range(n):
         kind = kinds[k % len(kinds)]
@@ -461,7 +476,7 @@ def _build(comp):
     if t == "irreg":
         pts = [[float(F(x)) for x in o["t"]] for o in comp["obs"]]
         vals = [[float("nan") if y == "nan" else float(F(y)) for y in o["y"]] for o in comp["obs"]]
-        return _irregular(pts, vals)
+        return _irregular(pts, vals, vorder=comp.get("vorder"))
     raise ValueError(t)
 
 
@@ -574,6 +589,22 @@ def _impl_grid(case, build, out):
 
     out["history"] = _call(history)
     out["grid"] = _call(lambda: _grid_vals(build()).tolist())
+    if case["type"] == "dense1" and not case.get("sized"):
+        # the operations on DERIVED objects (results of other operations) against freshly built twins with the same values
+        deriv = {"center()": lambda fd: fd.center(), "center(method_smoothing='LP')": lambda fd: fd.center(method_smoothing="LP", bandwidth=0.5),
+                 "standardize()": lambda fd: fd.standardize(), "rescale()[0]": lambda fd: fd.rescale()[0], "normalize()": lambda fd: fd.normalize(),
+                 "fd * 2": lambda fd: fd * 2.0, "fd[1:]": lambda fd: fd[1:]}
+        dops = {"center": lambda f: _grid_vals(f.center()).tolist(), "standardize": lambda f: _grid_vals(f.standardize(center=case["center"])).tolist(),
+                "rescale": lambda f: float(f.rescale(**opts)[1]), "norm": lambda f: np.asarray(f.norm(**opts), dtype=float).tolist()}
+        res = {}
+        for dn, mk in deriv.items():
+            def one(mk=mk):
+                d = mk(build())
+                twin = _dense([_Fv(case["t"])], np.array(d.values, dtype=float, copy=True))
+                amp = float(np.abs(np.asarray(d.values, dtype=float)).max())
+                return {nm: [_call(lambda: op(d)), _call(lambda: op(twin)), amp] for nm, op in dops.items()}
+            res[dn] = _call(one)
+        out["derived"] = res
     _variants(build, {
         "center": lambda fd: _grid_vals(fd.center()).tolist(),
         "normalize": lambda fd: _grid_vals(fd.normalize(**opts)).tolist(),
@@ -594,8 +625,8 @@ def _impl_irreg(case, out, comp=None):
         fd = _build(comp)
         if case.get("sub"):
             # the same curves as a sub-selection of a larger data set (labels 1..N)
-            pts = [fd.argvals[k]["input_dim_0"] for k in fd.argvals]
-            vals = [fd.values[k] for k in fd.values]
+            pts = [fd.argvals[k]["input_dim_0"] for k in sorted(fd.argvals)]
+            vals = [fd.values[k] for k in sorted(fd.argvals)]
             fd = _irregular([pts[0]] + pts, [vals[0]] + vals)[1:]
         return fd
 
@@ -614,7 +645,7 @@ def _impl_irreg(case, out, comp=None):
         var = np.diag(cov.values.squeeze())
         U = np.asarray(cov.argvals["input_dim_0"], dtype=float)
         sds = []
-        for k in cen.values:
+        for k in sorted(cen.values):
             pts = np.asarray(cen.argvals[k]["input_dim_0"], dtype=float)
             sds.append(np.sqrt(var[np.isin(U, pts)]).tolist())
         return dict(v=_vals(cen), sd=sds)
@@ -626,7 +657,7 @@ def _impl_irreg(case, out, comp=None):
         c = fd.center(**ckw)
         fresh = build()
         mean = fresh.mean(points=fresh.argvals.to_dense(), **ckw)
-        return dict(v=_vals(c), labels=[int(k) for k in c.values], in_labels=[int(k) for k in fd.values],
+        return dict(v=_vals(c), labels=sorted(int(k) for k in c.values), in_labels=sorted(int(k) for k in fd.values),
                     U=np.asarray(mean.argvals["input_dim_0"], dtype=float).tolist(), mean=np.asarray(mean.values[0], dtype=float).tolist())
 
     out["center"] = _call(center)
@@ -634,9 +665,10 @@ def _impl_irreg(case, out, comp=None):
     def ragged():
         """The same content in the ragged encoding (missing samples dropped instead of NaN)."""
         fd = build()
-        pts = [np.asarray(fd.argvals[k]["input_dim_0"], dtype=float) for k in fd.argvals]
-        vals = [np.asarray(fd.values[k], dtype=float) for k in fd.values]
-        return _irregular([p[~np.isnan(v)] for p, v in zip(pts, vals)], [v[~np.isnan(v)] for v in vals], labels=[int(k) for k in fd.values])
+        keys = sorted(fd.argvals)
+        pts = [np.asarray(fd.argvals[k]["input_dim_0"], dtype=float) for k in keys]
+        vals = [np.asarray(fd.values[k], dtype=float) for k in keys]
+        return _irregular([p[~np.isnan(v)] for p, v in zip(pts, vals)], [v[~np.isnan(v)] for v in vals], labels=[int(k) for k in keys])
 
     def normalize():
         nz = build().normalize(**opts)
@@ -1495,6 +1527,17 @@ def oracle(case, impl):
         return vs  # named basis with non-finite values (e.g. too few functions for the B-spline degree): C18's matter, counted in classify
     if kind in ("dense1", "dense2", "basis1", "basis2"):
         _oracle_grid(case, impl, bad)
+        from c09 import _same
+
+        for dn, r in (impl.get("derived") or {}).items():
+            if _err(r):
+                continue
+            for nm, (a, b, amp) in r.items():
+                fin = _all_finite(b)
+                if fin and not _same(a, b, amp * amp if nm == "rescale" else amp):
+                    bad("derived_object", f"{nm} of the object returned by {dn} gives {str(a)[:90]}, a freshly built object with the same values {str(b)[:90]}",
+                        "DenseFunctionalData." + nm, ["derived:" + dn])
+                    break
         _variant_violations(impl, bad, "BasisFunctionalData" if kind.startswith("basis") else "DenseFunctionalData")
     elif kind == "irreg":
         _oracle_irreg(case, impl, bad)
@@ -1519,6 +1562,8 @@ def classify(case, impl):
         tags += ["irregular:" + case["enc"], "smooth:" + case["smooth"]["method"]]
         if case.get("sub"):
             tags.append("irregular:subselection")
+        if case.get("vorder"):
+            tags.append("irregular:values-dict-in-another-key-order")
         tags += ["irregular:model:" + part for part in _irreg_parts(case, impl)]
     if case["kind"] == "multi":
         tags.append("multi:" + case["mix"])
